@@ -1981,7 +1981,8 @@ func marshalInet(info TypeInfo, value interface{}) ([]byte, error) {
 	case unsetColumn:
 		return nil, nil
 	case net.IP:
-		if val == nil {
+		if len(val) == 0 {
+			// no address, nil or empty: null
 			return nil, nil
 		}
 		t := val.To4()
